@@ -70,7 +70,12 @@ class Interp:
         k = t.kind
         if k in ("int", "bool", "str"):
             return self.mk(term, k)
-        if k in ("float", "key3", "bytes", "json"):
+        if k == "json":
+            if fr is not None and fr.spec:
+                return Sym(term, k)
+            from . import mmjson
+            return mmjson.LazyJson(term)
+        if k in ("float", "key3", "bytes"):
             return Sym(term, k)
         if k in ("obj", "dict", "opaque"):
             return Obj(term, t)
@@ -118,7 +123,10 @@ class Interp:
                 return z3.StringVal(v)
             if is_sym(v, "str"):
                 return v.term
-        elif k in ("float", "bytes", "json"):
+        elif k == "json":
+            from . import mmjson
+            return mmjson.to_json_term(self, v)
+        elif k in ("float", "bytes"):
             if is_sym(v, k):
                 return v.term
             if k == "bytes" and isinstance(v, bytes):
@@ -186,7 +194,8 @@ class Interp:
             raise Unsupported(f"no field {tname(obj.typ)}.{attr} (write)")
         name = self.fname(decl, attr)
         inner_t = t.args[0] if t.kind == "opt" else t
-        if isinstance(v, dict) and not v and inner_t.kind == "dict":
+        if inner_t.kind == "dict" and ((isinstance(v, dict) and not v) or
+                                       (isinstance(v, LibObj) and v.kind == "local_dict" and v.heap is None and not v.py)):
             v = self.alloc(inner_t)  # `{}` stored into a dict-typed field: a fresh empty heap dict
         if t.kind == "opt":
             nn = name + "?none"
@@ -298,6 +307,7 @@ class Interp:
 
     # ------------------------------------------------------------------ truthiness / coercions
     def truthy(self, v):
+        v = self.force(v)
         if v is None:
             return False
         if isinstance(v, (bool, int, str, tuple, list, dict, set, bytes, frozenset)):
@@ -536,6 +546,11 @@ class Interp:
                 r = (not r) if isinstance(r, bool) else z3.Not(r)
             return self.mk(r, "bool")
         if isinstance(op, (ast.Is, ast.IsNot)):
+            for x, y in ((a, b), (b, a)):
+                if isinstance(x, LibObj) and x.kind == "lazy_json" and y is None:
+                    r = x.is_none(self)
+                    return (not r) if isinstance(op, ast.IsNot) else r
+            a, b = self.force(a), self.force(b)
             if a is None or b is None or isinstance(a, (bool,)) or isinstance(b, (bool,)):
                 if isinstance(a, SpecOpt):
                     r = a.isnone
@@ -570,6 +585,7 @@ class Interp:
         raise Unsupported("compare op")
 
     def contains(self, cont, x, fr):
+        cont = self.force(cont)
         if isinstance(cont, Obj) and cont.typ.kind == "dict":
             heap = fr.heap if fr.spec and fr.heap is not None else None
             if not fr.spec:
@@ -588,7 +604,13 @@ class Interp:
         v = self.ev(n.value, fr)
         return self.get_attr(v, n.attr, fr, n)
 
+    def force(self, v):
+        if isinstance(v, LibObj) and v.kind == "lazy_json":
+            return v.force(self)
+        return v
+
     def get_attr(self, v, name, fr, node=None):
+        v = self.force(v)
         if isinstance(v, SpecOpt):
             v = v.value  # spec mode: attribute of an optional value (meaningful under a not-None guard)
         if isinstance(v, ModuleVal):
@@ -688,6 +710,7 @@ class Interp:
         return self.getitem(v, k, fr, n)
 
     def getitem(self, v, k, fr, node=None):
+        v = self.force(v)
         if isinstance(v, Obj) and v.typ.kind == "dict":
             return self.d_getitem(v, k, fr, node)
         if isinstance(v, dict):
@@ -701,6 +724,10 @@ class Interp:
                 if -len(v) <= k < len(v):
                     return v[k]
                 raise RaiseSig(self.make_exc("IndexError", site=node))
+        if v is None or isinstance(v, (int, bool)) or is_sym(v, "int") or is_sym(v, "bool"):
+            raise RaiseSig(self.make_exc("TypeError", site=node))
+        if (isinstance(v, str) or is_sym(v, "str")) and (isinstance(k, str) or is_sym(k, "str")):
+            raise RaiseSig(self.make_exc("TypeError", site=node))  # string indices must be integers
         return self.lib.getitem(self, v, k, fr, node)
 
     def ev_Await(self, n, fr):
@@ -739,6 +766,8 @@ class Interp:
         for kw in n.keywords:
             if kw.arg is None:
                 m = self.ev(kw.value, fr)
+                if isinstance(m, LibObj) and m.kind == "local_dict" and m.heap is None:
+                    m = m.py
                 if not isinstance(m, dict):
                     raise Unsupported("** of non-concrete mapping")
                 kwargs.update(m)
@@ -1041,6 +1070,7 @@ class Interp:
         self.lib.set_attr(self, o, name, v, fr, node)
 
     def setitem(self, o, k, v, fr, node=None):
+        o = self.force(o)
         if isinstance(o, Obj) and o.typ.kind == "dict":
             self.d_setitem(o, k, v)
             return
@@ -1049,6 +1079,8 @@ class Interp:
                 raise Unsupported("symbolic key store into concrete dict")
             o[k] = v
             return
+        if o is None or isinstance(o, (int, bool, str)) or is_sym(o):
+            raise RaiseSig(self.make_exc("TypeError", site=node))
         self.lib.setitem(self, o, k, v, fr, node)
 
     def ex_Return(self, s, fr):
